@@ -432,8 +432,7 @@ where
         // Note: This is not atomic across shards, so the snapshot
         // might not be perfectly consistent
         for shard in &self.shards {
-            // We'd need to add a keys() method to LruMap for this to work
-            // For now, this is a placeholder showing the interface
+            all_keys.extend(shard.keys());
         }
         
         all_keys
